@@ -23,56 +23,69 @@ def logPlaced (w : World) (oid : Nat) (betId : Option Nat) : World :=
   | some b => (w.modifyOrder oid fun o => { o with betId := some b }).emit (.orderEvent oid)
   | none => w
 
+/-- `self._bet_id += 1` -/
+def bumpBetId (w : World) : World := { w with betId := w.betId + 1 }
+
+/-- `order.simulated.place(order_package, market_book, instruction, self._bet_id)` for order `o` in world `w` -/
+def placeResponse (p : Package) (w : World) (o : Order) : SimOrder × SimOrder.PlaceResp :=
+  let book := (w.market! p.market).book.getD {}
+  let runner := (runnerOf book o.sel o.hc).getD { sel := o.sel }
+  o.sim.place p.marketVersion (w.client! p.client).bpe (w.client! (o.client.getD 0)).fullMatch book.view runner.view
+    o.fok o.minFill w.betId
+
+/-- the body of the `execute_place` loop for one order of the package -/
+def placeStep (p : Package) (w : World) (oid : Nat) : World :=
+  let o := w.order! oid
+  let w := (w.tradeEnter o.trade).bumpBetId
+  let pr := placeResponse p w o
+  let w := w.modifyOrder oid fun o => { o with sim := pr.1 }
+  let w := w.logPlaced oid pr.2.betId
+  let w := match pr.2.status with
+    | .success => w.orderExecutable oid
+    | .failure => w.orderExecutionComplete oid
+  w.tradeExit o.trade
+
 /-- `SimulatedExecution.execute_place` -/
 def executePlace (w : World) (p : Package) : World :=
-  let w := (w.packageOrders p).foldl (fun w oid =>
-    let o := w.order! oid
-    let w := w.tradeEnter o.trade
-    let w := { w with betId := w.betId + 1 }
-    let m := w.market! p.market
-    let book := m.book.getD {}
-    let c := w.client! p.client
-    let runner := (runnerOf book o.sel o.hc).getD { sel := o.sel }
-    let (sim', resp) := o.sim.place p.marketVersion c.bpe (w.client! (o.client.getD 0)).fullMatch book.view runner.view
-      o.fok o.minFill w.betId
-    let w := w.modifyOrder oid fun o => { o with sim := sim' }
-    let w := w.logPlaced oid resp.betId
-    let w := match resp.status with
-      | .success => w.orderExecutable oid
-      | .failure => w.orderExecutionComplete oid
-    w.tradeExit o.trade) w
+  let w := (w.packageOrders p).foldl (placeStep p) w
   w.addTransaction p.client (w.packageOrders p).length
+
+/-- the body of the `execute_cancel` loop for one order (world, failed count) -/
+def cancelStep (p : Package) (acc : World × Nat) (oid : Nat) : World × Nat :=
+  let (w, failed) := acc
+  let o := w.order! oid
+  let w := w.tradeEnter o.trade
+  let book := ((w.market! p.market).book).getD {}
+  let red := if o.ud.hasReduction then o.ud.sizeReduction else none
+  let (sim', resp) := o.sim.cancel book.status red
+  let w := w.modifyOrder oid fun o => { o with sim := sim', cancelResponses := o.cancelResponses + 1 }
+  let (w, failed) := match resp.status with
+    | .success =>
+      if (w.order! oid).sim.sizeRemaining = 0 then (w.orderExecutionComplete oid, failed)
+      else (w.orderExecutable oid, failed)
+    | .failure => (w.orderExecutable oid, failed + 1)
+  (w.tradeExit o.trade, failed)
 
 /-- `SimulatedExecution.execute_cancel` -/
 def executeCancel (w : World) (p : Package) : World :=
-  let (w, failed) := (w.packageOrders p).foldl (fun (acc : World × Nat) oid =>
-    let (w, failed) := acc
-    let o := w.order! oid
-    let w := w.tradeEnter o.trade
-    let book := ((w.market! p.market).book).getD {}
-    let red := if o.ud.hasReduction then o.ud.sizeReduction else none
-    let (sim', resp) := o.sim.cancel book.status red
-    let w := w.modifyOrder oid fun o => { o with sim := sim', cancelResponses := o.cancelResponses + 1 }
-    let (w, failed) := match resp.status with
-      | .success =>
-        if (w.order! oid).sim.sizeRemaining = 0 then (w.orderExecutionComplete oid, failed)
-        else (w.orderExecutable oid, failed)
-      | .failure => (w.orderExecutable oid, failed + 1)
-    (w.tradeExit o.trade, failed)) (w, 0)
+  let (w, failed) := (w.packageOrders p).foldl (cancelStep p) (w, 0)
   if failed ≠ 0 then w.addTransaction p.client failed true else w
+
+/-- the body of the `execute_update` loop for one order -/
+def updateStep (p : Package) (acc : World × Nat) (oid : Nat) : World × Nat :=
+  let (w, failed) := acc
+  let o := w.order! oid
+  let w := w.tradeEnter o.trade
+  let book := ((w.market! p.market).book).getD {}
+  let (sim', st, _) := o.sim.update book.view o.sim.persistence
+  let w := w.modifyOrder oid fun o => { o with sim := sim', updateResponses := o.updateResponses + 1 }
+  let w := w.orderExecutable oid
+  let failed := if st = .failure then failed + 1 else failed
+  (w.tradeExit o.trade, failed)
 
 /-- `SimulatedExecution.execute_update` -/
 def executeUpdate (w : World) (p : Package) : World :=
-  let (w, failed) := (w.packageOrders p).foldl (fun (acc : World × Nat) oid =>
-    let (w, failed) := acc
-    let o := w.order! oid
-    let w := w.tradeEnter o.trade
-    let book := ((w.market! p.market).book).getD {}
-    let (sim', st, _) := o.sim.update book.view o.sim.persistence
-    let w := w.modifyOrder oid fun o => { o with sim := sim', updateResponses := o.updateResponses + 1 }
-    let w := w.orderExecutable oid
-    let failed := if st = .failure then failed + 1 else failed
-    (w.tradeExit o.trade, failed)) (w, 0)
+  let (w, failed) := (w.packageOrders p).foldl (updateStep p) (w, 0)
   if failed ≠ 0 then w.addTransaction p.client failed true else w
 
 /-- `Trade.create_order_replacement(order, new_price, size, date_time_created)` -/
@@ -86,42 +99,45 @@ def createReplacement (w : World) (oid : Nat) (newPrice size : Rat) (created : T
   let t := w.trade! o.trade
   (({ w with orders := w.orders ++ [r] }).setTrade { t with orders := t.orders ++ [nid] }, nid)
 
+/-- the body of the `execute_replace` loop for one (order, instruction) pair -/
+def replaceStep (p : Package) (acc : World × Nat) (pr : Nat × Option Rat) : World × Nat :=
+  let (w, failed) := acc
+  let (oid, newPrice) := pr
+  let o := w.order! oid
+  let w := w.tradeEnter o.trade
+  let book := ((w.market! p.market).book).getD {}
+  let red := if o.ud.hasReduction then o.ud.sizeReduction else none
+  let (sim', cresp) := o.sim.cancel book.status red
+  let w := w.modifyOrder oid fun o => { o with sim := sim', cancelResponses := o.cancelResponses + 1 }
+  match cresp.status with
+  | .failure => ((w.orderExecutable oid).tradeExit o.trade, failed + 1)
+  | .success =>
+    let w := w.orderExecutionComplete oid
+    let w := { w with betId := w.betId + 1 }
+    let (w, rid) := w.createReplacement oid (newPrice.getD 0) cresp.sizeCancelled p.created
+    let r := w.order! rid
+    let c := w.client! p.client
+    let runner := (runnerOf book r.sel r.hc).getD { sel := r.sel }
+    let (rsim, resp) := r.sim.place p.marketVersion c.bpe (w.client! (r.client.getD 0)).fullMatch book.view runner.view
+      false none w.betId
+    let w := w.modifyOrder rid fun x => { x with sim := rsim }
+    match resp.status with
+    | .success =>
+      let w := w.modifyOrder rid fun x => { x with placedAt := some w.clock, betId := resp.betId }
+      let w := w.emit (.orderEvent rid)
+      -- market.place_order(replacement, execute=False, client=order.client)
+      let (w, _, _) := w.txnPlace { market := p.market, client := o.client.getD ((w.clients.head?.map (·.id)).getD 0) } rid none false false
+      let w := w.orderExecutable rid
+      (w.tradeExit o.trade, failed)
+    | .failure => (((w.orderExecutionComplete rid).orderExecutable oid).tradeExit o.trade, failed)
+
 /-- `SimulatedExecution.execute_replace`; instructions come from `replace_instructions`, which skips
     EXECUTION_COMPLETE orders, and are zipped *positionally* with the (unfiltered) package orders -/
 def executeReplace (w : World) (p : Package) : World :=
   let orders := w.packageOrders p
   let instrs : List (Option Rat) :=
     (orders.filter fun oid => (w.order! oid).status ≠ some .executionComplete).map fun oid => (w.order! oid).ud.newPrice
-  let (w, failed) := (orders.zip instrs).foldl (fun (acc : World × Nat) (pr : Nat × Option Rat) =>
-    let (w, failed) := acc
-    let (oid, newPrice) := pr
-    let o := w.order! oid
-    let w := w.tradeEnter o.trade
-    let book := ((w.market! p.market).book).getD {}
-    let red := if o.ud.hasReduction then o.ud.sizeReduction else none
-    let (sim', cresp) := o.sim.cancel book.status red
-    let w := w.modifyOrder oid fun o => { o with sim := sim', cancelResponses := o.cancelResponses + 1 }
-    match cresp.status with
-    | .failure => ((w.orderExecutable oid).tradeExit o.trade, failed + 1)
-    | .success =>
-      let w := w.orderExecutionComplete oid
-      let w := { w with betId := w.betId + 1 }
-      let (w, rid) := w.createReplacement oid (newPrice.getD 0) cresp.sizeCancelled p.created
-      let r := w.order! rid
-      let c := w.client! p.client
-      let runner := (runnerOf book r.sel r.hc).getD { sel := r.sel }
-      let (rsim, resp) := r.sim.place p.marketVersion c.bpe (w.client! (r.client.getD 0)).fullMatch book.view runner.view
-        false none w.betId
-      let w := w.modifyOrder rid fun x => { x with sim := rsim }
-      match resp.status with
-      | .success =>
-        let w := w.modifyOrder rid fun x => { x with placedAt := some w.clock, betId := resp.betId }
-        let w := w.emit (.orderEvent rid)
-        -- market.place_order(replacement, execute=False, client=order.client)
-        let (w, _, _) := w.txnPlace { market := p.market, client := o.client.getD ((w.clients.head?.map (·.id)).getD 0) } rid none false false
-        let w := w.orderExecutable rid
-        (w.tradeExit o.trade, failed)
-      | .failure => (((w.orderExecutionComplete rid).orderExecutable oid).tradeExit o.trade, failed)) (w, 0)
+  let (w, failed) := (orders.zip instrs).foldl (replaceStep p) (w, 0)
   let w := w.addTransaction p.client (w.packageOrders p).length
   if failed ≠ 0 then w.addTransaction p.client failed true else w
 
